@@ -82,6 +82,10 @@ def round_trip(system, save_calc, edit=None):
         with watchdog(120):
             class_objs, flat = json_to_system(json.loads(text))
     except Exception as e:  # noqa
+        if "negative cumulative storage need" in str(e) and "delete data: []" in str(e):
+            # the same inputs rounded to 3 decimals, a cumulative need of −1e-18 TB without any deleting job: float
+            # cancellation in the cumulative storage need (finding D4, judged under C04), not a question of saving
+            return [("__inconclusive__", "D4 at load")], None
         return [(f"load-raises:{type(e).__name__}-{str(e)[:20].strip(chr(39))}", f"{type(e).__name__}: {e}")], None
     sys2 = list(class_objs["System"].values())[0]
     j2 = system_to_json(sys2, save_calculated_attributes=save_calc)
@@ -249,6 +253,9 @@ def shard(args):
                 out["disagreements"].append({"why": d, "kind": kind, "seed": seed, "index": i})
         save_calc = rng.random() < 0.4
         bad, sys2 = round_trip(system, save_calc)
+        if bad and bad[0][0] == "__inconclusive__":
+            out["inconclusive"] = out.get("inconclusive", 0) + 1
+            continue
         for sig, detail in bad:
             trig = ""
             if sig.startswith("save-raises") and kind == "generated":
